@@ -1,5 +1,6 @@
 import AuModel.Policy
 import AuProofs.C11
+import AuProofs.Lemmas.FltPipeline
 namespace Au
 
 /-! # C06 — the implicit-conversion policy is total and as documented -/
@@ -79,10 +80,11 @@ theorem canScaleThreshold_iff (t : IntTy) (ht : t ∈ IntTy.all) (sf : Mag)
         rw [hg] at this
         cases this
 
-/-- **C06 (the documented formula).**  For an integral target `R2`: the conversion is implicitly
+/-- (Conditional form, kept: the float-pipeline fact as an explicit hypothesis.)
+ **C06 (the documented formula).**  For an integral target `R2`: the conversion is implicitly
 permitted exactly when the dimensions match and either the source is integral and `U1/U2` is an
 integer `k` with `2147 · k ≤ max(R2)`, or `k = 1` between integral reps. -/
-theorem C06_formula (sameDim : Bool) (t : IntTy) (ht : t ∈ IntTy.all) (sf : Mag) (src : Rep)
+theorem C06_formula_of (sameDim : Bool) (t : IntTy) (ht : t ∈ IntTy.all) (sf : Mag) (src : Rep)
     (hpos : ∀ a ∈ sf, ∀ p, a.1 = .prime p → 1 ≤ p) (hd : DoubleLeOneOnlyForOne sf) :
     permitImplicitFrom sameDim (.int t) sf src = true ↔
       (sameDim = true ∧
@@ -106,6 +108,46 @@ theorem C06_formula (sameDim : Bool) (t : IntTy) (ht : t ∈ IntTy.all) (sf : Ma
         simp [hint, hnle, Rep.isInt, Rep.isFloat]
     · have hf : Mag.isIntegerMag sf = false := by cases h : Mag.isIntegerMag sf <;> simp_all
       simp [hf, Rep.isInt, Rep.isFloat]
+
+/-- The float-pipeline fact is a theorem for every integer magnitude with well-formed prime bases
+(`2 ≤ p < 2^64`, what `Prime<N>` guarantees): see `magAsDoubleLeOne_false`. -/
+theorem doubleLeOneOnlyForOne (sf : Mag) (hint : Mag.isIntegerMag sf = true) (hok : Mag.PrimesOK sf) :
+    DoubleLeOneOnlyForOne sf := by
+  intro h
+  by_contra hne
+  rw [magAsDoubleLeOne_false sf hne hint hok] at h
+  cases h
+
+/-- **The documented formula, unconditionally.**  For every integral target rep, every source rep
+and every scale factor `sf = U1/U2` whose prime bases are well formed, an implicit conversion is
+permitted exactly when the dimensions match and either the source is integral and `U1/U2` is an
+integer `k` with `2147 · k ≤ max(R2)`, or `k = 1` between integral reps. -/
+theorem C06_formula (sameDim : Bool) (t : IntTy) (ht : t ∈ IntTy.all) (sf : Mag) (src : Rep)
+    (hok : Mag.PrimesOK sf) :
+    permitImplicitFrom sameDim (.int t) sf src = true ↔
+      (sameDim = true ∧
+        ((src.isInt = true ∧ Mag.isIntegerMag sf = true ∧ overflowThreshold * Mag.natValue sf ≤ t.hi) ∨
+         (sf = [] ∧ src.isInt = true))) := by
+  have hpos : ∀ a ∈ sf, ∀ p, a.1 = .prime p → 1 ≤ p := fun a ha p hp => by
+    have := (hok a ha p hp).1; omega
+  by_cases hint : Mag.isIntegerMag sf = true
+  · exact C06_formula_of sameDim t ht sf src hpos (doubleLeOneOnlyForOne sf hint hok)
+  · -- non-integer scale factor: the threshold test is never consulted
+    have hf : Mag.isIntegerMag sf = false := by cases h : Mag.isIntegerMag sf <;> simp_all
+    unfold permitImplicitFrom corePolicy carveOut
+    by_cases hid : Rep.int t = src ∧ sf = []
+    · obtain ⟨hs, hn⟩ := hid
+      subst hs; subst hn
+      simp [Rep.isInt, Rep.isFloat]
+    · simp only [hid, if_false]
+      simp [hf, Rep.isInt, Rep.isFloat]
+
+/-- Non-vacuity: kilo (2^3·5^3) has well-formed bases, is an integer magnitude and is not ONE. -/
+example : Mag.PrimesOK [(.prime 2, 3), (.prime 5, 3)] ∧ Mag.isIntegerMag [(.prime 2, 3), (.prime 5, 3)] = true := by
+  refine ⟨?_, by decide⟩
+  intro a ha p hp
+  simp at ha
+  rcases ha with rfl | rfl <;> simp at hp <;> subst hp <;> decide
 
 end Au
 
